@@ -21,6 +21,8 @@ DIGITS = "0123456789"
 
 
 def run(ck, prog):
+    from props.common import check_memos
+    ck.attempt(check_memos, ck, prog)
     ck.explanation = (
         "The per-character filter is folded over a 260-character universe; the asterisk validation and the line loop "
         "are enumerated into decision tables with the unknown line as an abstract string (its stripped length a numeric "
